@@ -117,6 +117,14 @@ func checkC06(c *Ctx) {
 	}, "R06.1", "backends.Write:stores", []string{"R08.3"}, "write-effect")
 	// … with the TTL it was given: every Write stores the expiry expireAt(ctx) computed from that TTL — E = now + ttl for every
 	// non-zero ttl, negative ones included (C10 R10.3)
+	// "never alters … the caller's context": also the failure entry is written under a cell of its own — WithTTL(ctx, DefaultTTL,
+	// false) — never by updating the caller's cell (C05 R05.6)
+	for _, sib := range siblings {
+		if fo := c.failover(sib); fo.Err == nil {
+			fo := fo
+			c.borrowKinds("C05", func() { c.c05Sibling(fo) }, "R06.2", sib+".Get:failure-write-own-cell", []string{"R05.6"}, "failure-ttl-from-context")
+		}
+	}
 	c.borrowKinds("C10", func() { c.c10ExpireAt() }, "R06.1", "backends.Write:stored-expiry", []string{"R10.3"}, "stored-E", "no-ttl", "expiry-value")
 	c.c06WithTTL()
 	c.c06Accessors()
